@@ -359,10 +359,12 @@ func TestUnacceptedSmallScopeExhaustive(t *testing.T) {
 			for variant, sv := range [][]reftdx.Range{secs, rev} {
 				got := fromGPR(ovmf.VerifUnacceptedMemRanges(toGPR(sv), toGPR(banks)))
 				if !equalRanges(got, want) {
+					if !ev.IsKnown("C05/unaccepted-ranges-differ") {
+						ev.SaveReplay("C05", "TestUnacceptedSmallScopeExhaustive", map[string]any{"sections": sv, "banks": banks})
+					}
 					if ev.Violation(t, "C05/unaccepted-ranges-differ", "sections %v banks %v: implementation %v, reference %v", sv, banks, got, want) {
 						continue
 					}
-					ev.SaveReplay("C05", "TestUnacceptedSmallScopeExhaustive", map[string]any{"sections": sv, "banks": banks})
 					return
 				}
 				if variant == 0 {
